@@ -254,3 +254,32 @@ Proof. vm_compute. reflexivity. Qed.
 Example ex_match_m1_exact_first :
   match_ (VInt 3) (VTuple [VBool true; s_b; VInt 5; VInt 3; VInt 3; VInt 1]) (VInt (-1)) = Ok (VInt 4).
 Proof. vm_compute. reflexivity. Qed.
+
+(* the hypotheses of match_m1_scan on a vector that is NOT sorted as a whole:
+   only its numbers descend *)
+Definition mixed_vec := [s_a; VInt 5; s_b; VInt 3; VBool true; VInt 3; excelutil.c_DIV0; VInt 1].
+Example ex_m1_scan_hyps : exists x, lv_key (VInt 2) = Ok x
+  /\ (forall c, In c mixed_vec -> exists k, abs_key c = Ok k) /\ desc_for (fst (fst x)) mixed_vec.
+Proof.
+  eexists. split; [vm_compute; reflexivity|]. split.
+  - intros c Hin. repeat (destruct Hin as [<-|Hin]; [eexists; vm_compute; reflexivity|]). destruct Hin.
+  - cbn [fst]. intros i j ci cj ki kj Hij Hi Hj (_ & Hki & Hti) (_ & Hkj & Htj).
+    unfold mixed_vec in Hi, Hj.
+    repeat match type of Hi with
+           | nth_error (_ :: _) ?n = Some _ =>
+               let m := fresh "i" in destruct n as [|m]; cbn [nth_error] in Hi
+           end.
+    all: try match type of Hi with nth_error [] ?n = _ => destruct n; discriminate Hi end.
+    all: injection Hi as <-; vm_compute in Hki; injection Hki as <-; cbn [fst] in Hti;
+      try discriminate Hti.
+    all: repeat match type of Hj with
+                | nth_error (_ :: _) ?n = Some _ =>
+                    let m := fresh "j" in destruct n as [|m]; cbn [nth_error] in Hj
+                end.
+    all: try lia.
+    all: try match type of Hj with nth_error [] ?n = _ => destruct n; discriminate Hj end.
+    all: injection Hj as <-; vm_compute in Hkj; injection Hkj as <-; cbn [fst] in Htj;
+      try discriminate Htj; vm_compute; reflexivity.
+Qed.
+Example ex_m1_scan : match_ (VInt 2) (VTuple mixed_vec) (VInt (-1)) = Ok (VInt 6).
+Proof. vm_compute. reflexivity. Qed.
